@@ -1,4 +1,131 @@
+/-
+C17 — property theorems (statements fixed by the architect; do not weaken).
+`Gen.ParseFolder.*` are GENERATED from user_scripts/parse_folder.py on every run.  The four `cfg_*`
+theorems below are the ONLY places allowed to evaluate the generated constants (by `rfl`/`decide`);
+everything else must be derived from them, so that an edit of the script re-opens exactly these.
+Helper lemmas: PeroVerif/Lemmas/Resume.lean.
+-/
 import PeroVerif.Model.Resume
+import PeroVerif.Lemmas.Resume
+
 namespace C17
-theorem placeholder : (1:Nat) = 1 := rfl
+open Resume Gen.ParseFolder Py
+
+/-- requested-kinds predicate from five switches -/
+def sel (a b c d e : Bool) : Kind → Bool
+  | .xml => a | .render => b | .logits => c | .alto => d | .lines => e
+
+/-! ### obligations on the generated configuration -/
+
+/-- page ids are recovered with `os.path.splitext` -/
+theorem cfg_matcher : matcher = .splitext := rfl
+
+/-- every output kind is written, each exactly once -/
+theorem cfg_write_order_complete : writeOrder.Perm [.xml, .render, .logits, .alto, .lines] := by decide
+
+/-- whenever some consulted folder is requested, the LAST requested write of a page is into a
+consulted folder (so its presence implies the presence of all the page's requested outputs) -/
+theorem cfg_last_write_checked (a b c d e : Bool) :
+    (checkedKinds.filter (sel a b c d e)) ≠ [] →
+    ∃ k, (writeOrder.filter (sel a b c d e)).getLast? = some k ∧ k ∈ checkedKinds ∧ k ≠ .lines := by
+  have key : ∀ x : Option Kind,
+      (x.all fun k => decide (k ∈ checkedKinds) && decide (k ≠ .lines)) = true → x.isSome = true →
+      ∃ k, x = some k ∧ k ∈ checkedKinds ∧ k ≠ .lines := by
+    intro x hx hs
+    cases x with
+    | none => cases hs
+    | some k => exact ⟨k, rfl, by simpa using hx⟩
+  intro h
+  suffices hh : ((writeOrder.filter (sel a b c d e)).getLast?.all
+        fun k => decide (k ∈ checkedKinds) && decide (k ≠ .lines)) = true ∧
+      (writeOrder.filter (sel a b c d e)).getLast?.isSome = true from key _ hh.1 hh.2
+  revert h
+  cases a <;> cases b <;> cases c <;> cases d <;> cases e <;> decide
+
+/-- the final statistics survive an empty batch -/
+theorem cfg_division_guarded : divisionGuarded = true := rfl
+
+/-! ### the obligations in the form used by `PeroVerif/Lemmas/Resume.lean`
+(derived from the four `cfg_*` theorems only) -/
+
+theorem lastWriteChecked : LastWriteChecked := by
+  intro r h
+  have e : sel (r .xml) (r .render) (r .logits) (r .alto) (r .lines) = r :=
+    funext fun k => by cases k <;> rfl
+  have := cfg_last_write_checked (r .xml) (r .render) (r .logits) (r .alto) (r .lines)
+  rw [e] at this
+  exact this h
+
+theorem writeOrder_nodup : writeOrder.Nodup :=
+  cfg_write_order_complete.nodup_iff.2 (by decide)
+
+theorem writeOrder_all (k : Kind) : k ∈ writeOrder :=
+  cfg_write_order_complete.mem_iff.2 (by cases k <;> decide)
+
+/-! ### the protocol -/
+
+/-- an id from which `splitext` can recover itself: it has a character that is not a dot -/
+def GoodId (id : Str) : Prop := id.any (· != cDot) = true
+
+/-- distinct, recoverable page ids; crop file names of different pages do not collide -/
+def GoodPages (pages : List Page) : Prop :=
+  (pages.map (·.id)).Nodup ∧ (∀ p ∈ pages, GoodId p.id) ∧
+  ∀ p ∈ pages, ∀ q ∈ pages, p ≠ q → ∀ f ∈ filesOf p .lines, f ∉ filesOf q .lines
+
+/-- ids with dots and with output-extension substrings inside are recovered exactly -/
+theorem stem_exact (id : Str) (h : GoodId id) :
+    stemOf (id ++ extXml) = some id ∧ stemOf (id ++ extJpg) = some id ∧ stemOf (id ++ extLogits) = some id :=
+  ⟨stemOf_ext cfg_matcher id h .xml, stemOf_ext cfg_matcher id h .render, stemOf_ext cfg_matcher id h .logits⟩
+
+theorem goodBatch_of_goodPages {pages : List Page} (hp : GoodPages pages) : GoodBatch pages := hp
+
+/-- Resuming after ANY sequence of kills (each between two writes, at any position, any number of
+times) ends with exactly the requested outputs of every page — the same file set as an uninterrupted
+run — for every subset of output kinds and every batch. -/
+theorem resume_completes (K : List Kind) (pages : List Page) (crashes : List Nat) (hp : GoodPages pages) :
+    ∀ f, f ∈ history K pages crashes ↔ f ∈ allOutputs K pages :=
+  fullRun_complete cfg_matcher lastWriteChecked writeOrder_nodup (goodBatch_of_goodPages hp)
+    (inv_foldl (goodBatch_of_goodPages hp) crashes [] (inv_nil K pages))
+
+theorem uninterrupted_completes (K : List Kind) (pages : List Page) (hp : GoodPages pages) :
+    ∀ f, f ∈ fullRun [] K pages ↔ f ∈ allOutputs K pages :=
+  resume_completes K pages [] hp
+
+/-- Pages whose outputs are all complete are not processed again (whenever at least one consulted
+output kind is requested; the crops-only configuration is the recorded known finding). -/
+theorem complete_not_reprocessed (K : List Kind) (pages : List Page) (crashes : List Nat) (hp : GoodPages pages)
+    (hK : checkedKinds.filter (K.contains ·) ≠ []) :
+    todo (history K pages crashes) K pages = [] :=
+  todo_eq_nil_of_all_processed fun _ hpm =>
+    all_processed cfg_matcher lastWriteChecked writeOrder_all (goodBatch_of_goodPages hp)
+      (fun f hf => (resume_completes K pages crashes hp f).2 hf) hK hpm
+
+/-- … and the crops-only configuration really re-processes everything (negation witness) -/
+theorem crops_only_reprocesses (pages : List Page) (fs : FS) : todo fs [.lines] pages = pages :=
+  todo_lines_only lastWriteChecked pages fs
+
+/-- A run that finds nothing left to do exits cleanly. -/
+theorem nothing_to_do_exits_cleanly (fs : FS) (K : List Kind) (pages : List Page) :
+    exitsCleanly fs K pages = true := by
+  unfold exitsCleanly
+  rw [cfg_division_guarded]
+  rfl
+
+/-- After a kill, every page counted as processed has all its requested outputs on disk. -/
+theorem processed_pages_complete (K : List Kind) (pages : List Page) (crashes : List Nat) (hp : GoodPages pages)
+    (p : Page) (hpm : p ∈ pages)
+    (hdone : p.id ∈ processed (crashes.foldl (fun fs k => crashRun fs K pages k) []) K) :
+    ∀ f ∈ writes K p, f ∈ crashes.foldl (fun fs k => crashRun fs K pages k) [] :=
+  processed_complete cfg_matcher lastWriteChecked writeOrder_nodup (goodBatch_of_goodPages hp)
+    (inv_foldl (goodBatch_of_goodPages hp) crashes [] (inv_nil K pages)) hpm hdone
+
+/-! non-vacuity: the harness' batch (ids with dots and extension substrings) is a good batch -/
+def exPages : List Page :=
+  [⟨[97, 46, 120, 109, 108, 46, 98], [[108, 48]]⟩,        -- "a.xml.b" with line "l0"
+   ⟨[99, 46, 100], [[108, 48], [108, 49]]⟩,               -- "c.d"
+   ⟨[112, 49], []⟩]                                        -- "p1"
+theorem exPages_good : GoodPages exPages := by
+  unfold GoodPages GoodId
+  decide
+
 end C17
